@@ -482,6 +482,8 @@ class ExecMixin:
         mode = st.ch.choose(2, f"loop{ordinal}")
         # havoc
         targets = [x for x in assigned_names(s.body) if x in fr.env]
+        if "__yields__" in fr.env and any(isinstance(x, ast.Yield) for b in s.body for x in ast.walk(b)):
+            targets.append("__yields__")
         for nm in targets:
             if nm in declared and declared[nm].startswith("opt["):
                 fr.env[nm] = self.fresh_of(st, parse_T(declared[nm]), nm)
